@@ -43,10 +43,10 @@ def run(ctx):
     reqs = []; keys = []
     for k, (a, bs) in EQS.items():
         if a in trees and all(b in trees for b in bs):
-            reqs.append('eqcheck\t%s\t%s' % (a, ' '.join(bs))); keys.append(k)
+            reqs.append('rx\teqcheck\t%s\t%s' % (a, ' '.join(bs))); keys.append(k)
     for k, (a, b) in DISJ.items():
         if a in trees and b in trees:
-            reqs.append('disjcheck\t%s\t%s' % (a, b)); keys.append(k)
+            reqs.append('rx\tdisjcheck\t%s\t%s' % (a, b)); keys.append(k)
     try:
         res = dict(zip(keys, vlib.driver(reqs)))
     except vlib.DriverBuildError as e:
@@ -67,10 +67,10 @@ def run(ctx):
     for k in bad:
         if k in EQS:
             a, bs = EQS[k]
-            w = vlib.driver(['witness\tsymdiff\t%s\t%s' % (a, ' '.join(bs))])[0]
+            w = vlib.driver(['rx\twitness\tsymdiff\t%s\t%s' % (a, ' '.join(bs))])[0]
         else:
             a, b = DISJ[k]; bs = [b]
-            w = vlib.driver(['witness\tand\t%s\t%s' % (a, b)])[0]
+            w = vlib.driver(['rx\twitness\tand\t%s\t%s' % (a, b)])[0]
         found = False
         if w.startswith('word'):
             s = ''.join(chr(int(x)) for x in w.split()[1:])
@@ -103,7 +103,7 @@ def run(ctx):
         c = cps(s)
         nontriv = False
         for n in names:
-            reqs.append('re\t%s\t%s' % (n, c))
+            reqs.append('rx\tre\t%s\t%s' % (n, c))
             m = compiled[n].match(s) is not None
             exp.append('1' if m else '0')
             nontriv = nontriv or m
